@@ -153,12 +153,21 @@ func genPair(r *PRNG, tier, prop string, o pairOpts) *Scenario {
 					pay := Payload{Len: ln, Seed: r.Uint64() >> 1}
 					switch via {
 					case 0:
-						ops = append(ops, WOp{Kind: "ctl", MT: mt, Pay: pay, DlMs: int64(r.Pick([]int{0, 60000}))})
+						dl := int64(r.Pick([]int{0, 60000, 100, 1000}))
+						ops = append(ops, WOp{Kind: "ctl", MT: mt, Pay: pay, DlMs: dl})
+						if dl > 0 && dl < 60000 && r.Bool() {
+							// let that deadline pass before the next message: a control deadline must not outlive its frame
+							ops = append(ops, WOp{Kind: "sleep", DlMs: dl + int64(r.Pick([]int{1, 50, 2000}))})
+						}
 					case 1:
 						ops = append(ops, WOp{Kind: "msg", MT: mt, Pay: pay})
 					default:
 						ops = append(ops, WOp{Kind: "nw", MT: mt, Pay: pay, Chunks: genChunks(r, ln), End: "close"})
 					}
+				}
+				if r.Chance(1, 10) {
+					// idle long enough for any reply deadline (pong: now+1s) to lapse
+					ops = append(ops, WOp{Kind: "sleep", DlMs: int64(r.Pick([]int{1100, 5000}))})
 				}
 				if r.Chance(1, 5) {
 					ops = append(ops, WOp{Kind: "ewc", B: r.Bool()})
